@@ -225,6 +225,25 @@ def exportStringSpec (v : BMNumber) : Option (List Nat) :=
   | .signed => if v.bytes.length = 8 then some ([48, 115] ++ signedDec (valOf v.bytes)) else none
   | _ => exportString v
 
+/-! ### the export option `BMNumberConfig.OmitPrefix` -/
+
+/-- `strings.ReplaceAll(s, string([a,b]), "")`: every non-overlapping occurrence, left to right -/
+def removeAll2 (a b : Nat) : List Nat → List Nat
+  | x :: y :: rest => if x = a ∧ y = b then removeAll2 a b rest else x :: removeAll2 a b (y :: rest)
+  | s => s
+termination_by s => s.length
+
+/-- `ShowPrefix()` of the integer-like types: `0u`, `0s`, `0x`, `0b` -/
+def prefixLetter : NType → Nat
+  | .unsigned => 117 | .signed => 115 | .hex => 120 | .bin => 98
+
+def showPrefix (t : NType) : List Nat := [48, prefixLetter t]
+
+/-- what `ExportString(&BMNumberConfig{OmitPrefix: true})` does to the text of `ExportString(nil)` -/
+def omitPrefix (t : NType) (s : List Nat) : List Nat := removeAll2 48 (prefixLetter t) s
+
+def exportStringOmit (v : BMNumber) : Option (List Nat) := (exportString v).map (omitPrefix v.ty)
+
 /-! ### the other import entry points and `ExportUint64` -/
 
 /-- `ImportUint(input, optionalBits)`: `w` ∈ {8,16,32,64} is the Go width of `input`; the value is
